@@ -18,6 +18,7 @@ PROPS = {
     "C11": "c11_scan",
     "C12": "c12_modes",
     "C13": "c13_macros",
+    "C14": "c14_histories",
     "C15": "c15_binary",
     "C16": "c16_presentation",
     "C17": "c17_faults",
